@@ -120,6 +120,22 @@ func (r *ComDoc) makeFreeSectors(count int, short bool) []SecID {
 	return freeList
 }
 
+// Count the sectors of the chain starting at first, refusing links that point
+// outside the table and chains that loop.
+func (r *ComDoc) chainLength(first SecID) (int, error) {
+	n := 0
+	for sector := first; sector >= 0; sector = r.SAT[sector] {
+		if int(sector) >= len(r.SAT) {
+			return 0, errors.New("sector chain points outside the allocation table")
+		}
+		n++
+		if n > len(r.SAT) {
+			return 0, errors.New("sector chain loops")
+		}
+	}
+	return n, nil
+}
+
 // Read the sector allocation table.
 //
 // Each index within the table corresponds to a sector within the file itself.
@@ -128,7 +144,17 @@ func (r *ComDoc) makeFreeSectors(count int, short bool) []SecID {
 // there are no more sectors.
 func (r *ComDoc) readSAT() error {
 	count := r.SectorSize / 4
-	sat := make([]SecID, count*int(r.Header.SATSectors))
+	// size the table by the sectors the MSAT really lists, not by the header's claim
+	listed := 0
+	for _, sector := range r.MSAT {
+		if sector >= 0 {
+			listed++
+		}
+	}
+	if uint32(listed) > r.Header.SATSectors {
+		return errors.New("msat has more sectors than indicated")
+	}
+	sat := make([]SecID, count*listed)
 	position := 0
 	for _, sector := range r.MSAT {
 		if sector < 0 {
